@@ -41,7 +41,7 @@ Section G.
   Notation sconst := (DeclProofs.sconst tk).
   Notation flat_c := (DeclProofs.flat_c tk).
   Notation erase_c := (DeclProofs.erase_c tk txt num).
-  Notation wf_c := (DeclProofs.wf_c tk cl).
+  Notation wf_c := (DeclProofs.wf_c tk cl txt num).
   Notation snames := (DeclProofs.snames tk).
   Notation flat_ns := (DeclProofs.flat_ns tk).
   Notation erase_ns := (DeclProofs.erase_ns tk txt).
@@ -333,7 +333,7 @@ Section G.
         by (cbn [app]; repeat (rewrite <- app_assoc; cbn [app]); reflexivity).
       rewrite (type_decl_head n w1 colon w2 _ f Hn Hw1 Hc Hw2 (skip_solid tk cl t _ St)). unfold DeclParser.type_spec.
       rewrite Hna.
-      destruct (DeclProofs.flat_c_head tk cl c rest Hcn) as (t0 & r0 & E & St0 & Hnl).
+      destruct (DeclProofs.flat_c_head tk cl txt num c rest Hcn) as (t0 & r0 & E & St0 & Hnl).
       assert (Hsk : skip (w4 ++ flat_c c ++ rest) = flat_c c ++ rest) by (rewrite (skip_app_triv tk cl w4 _ Hw4), E; apply skip_solid; exact St0).
       assert (Hnlp : next_is is_lp (w3 ++ a :: w4 ++ flat_c c ++ rest) = None) by (apply (next_is_not tk cl _ w3 a _ Hw3 Sa); rewrite Ha; reflexivity).
       destruct Ht as [Ht|Ht].
@@ -345,10 +345,12 @@ Section G.
         unfold DeclParser.next_lp, StParser.next_is. rewrite Hsk, E, Hnl. rewrite <- E.
         (* the first token of a constant is no identifier *)
         assert (Hni : ident (flat_c c ++ rest) = None).
-        { destruct c as [ct ck|cp cd|cm cd|cb ch cv cval]; cbn [DeclProofs.wf_c DeclProofs.flat_c app] in *; unfold StParser.ident.
+        { destruct c as [ct ck|cp cd|cm cd|cb ch cv cval|csg cd cneg|ck cty chs csg cv cl0]; cbn [DeclProofs.wf_c DeclProofs.flat_c app] in *; unfold StParser.ident.
           - rewrite Hcn. reflexivity.
           - rewrite (proj1 Hcn). reflexivity.
           - rewrite (proj1 Hcn). reflexivity.
+          - rewrite (proj1 Hcn). reflexivity.
+          - rewrite (proj1 Hcn). destruct cneg; reflexivity.
           - rewrite (proj1 Hcn). reflexivity. }
         rewrite Hni, (DeclProofs.pconst_at tk cl txt num c rest Hcn). unfold DeclProofs.type_text. rewrite Hnt. reflexivity.
     - (* late bound *)
@@ -560,7 +562,7 @@ Section G.
       sc.
     - intros (Hn & Hw1 & Hc & Hw2 & Hb & Hw3 & Ha & Hw4 & Hv). apply DeclProofs.scoped_2. sc.
     - intros (Hn & Hw1 & Hc & Hw2 & Ht & Hw3 & Ha & Hw4 & Hcn). apply DeclProofs.scoped_2.
-      pose proof (DeclProofs.scoped_c tk cl c Hcn).
+      pose proof (DeclProofs.scoped_c tk cl txt num c Hcn).
       apply scoped_cons; [rewrite Hn; reflexivity|]. apply scoped_app; [sc|]. apply scoped_cons; [rewrite Hc; reflexivity|].
       apply scoped_app; [sc|].
       change (t :: w3 ++ a :: w4 ++ flat_c c) with ([t] ++ (w3 ++ a :: w4 ++ flat_c c)).
